@@ -171,14 +171,37 @@ def flags_for(cfg, cache_dir):
     return base_flags(cfg) + ["--cache-dir", cache_dir]
 
 
+def data_dirs_for(files, seed: int) -> list:
+    """Directories WITHOUT any Python source (one text file inside) to put into the tree: first choice a directory named
+    like a module file beside it (`a.py` + `a/readme.txt`), else any other directory of the name pool that holds no source."""
+    rnd = random.Random(seed ^ 0xDA7A)
+    if rnd.random() < 0.35:
+        return []
+    def free(d):
+        return not any(f.startswith(d + "/") for f in files)
+    same = sorted({os.path.splitext(f)[0] for f in files if os.path.basename(os.path.splitext(f)[0]) != "__init__" and free(os.path.splitext(f)[0])})
+    other = sorted(d for d in DIRS if d and free(d) and d not in same)
+    out = []
+    if same:
+        out.append(rnd.choice(same))
+    if other and rnd.random() < 0.5:
+        out.append(rnd.choice(other))
+    return out
+
+
 def eval_e2e(arg):
-    files, ci, perm_seed = arg
+    files, ci, perm_seed = arg[:3]
+    datadirs = list(arg[3]) if len(arg) > 3 else []
     cfg = CONFIGS[ci]
     root = mypyrun.scratch("c18e")
-    res = {"files": files, "ci": ci}
+    res = {"files": files, "ci": ci, "datadirs": datadirs}
     old = os.getcwd()
     try:
         make_tree(root, files)
+        for d in datadirs:
+            os.makedirs(os.path.join(root, d), exist_ok=True)
+            with open(os.path.join(root, d, "readme.txt"), "w") as f:
+                f.write("not python\n")
         os.chdir(root)
         st = check_tree_inproc(root, files, cfg)
         res["inproc"] = st
@@ -250,7 +273,12 @@ def eval_e2e(arg):
 def judge_e2e(run: Run, res) -> None:
     files, ci = res["files"], res["ci"]
     cfg = CONFIGS[ci]
-    case = {"sub": "e2e", "files": list(files), "ci": ci}
+    case = {"sub": "e2e", "files": list(files), "ci": ci, "datadirs": list(res.get("datadirs") or [])}
+    dd = (" + source-less directories %s" % res["datadirs"]) if res.get("datadirs") else ""
+    if res.get("datadirs"):
+        run.label("e2e_with_sourceless_directory")
+        if any(d + e in files for d in res["datadirs"] for e in (".py", ".pyi")):
+            run.label("e2e_sourceless_directory_beside_same_named_module")
     st = res["inproc"]
     run.count()
     d, f, p = res["dir"], res["files_run"], res["perm_run"]
@@ -271,12 +299,12 @@ def judge_e2e(run: Run, res) -> None:
         run.label("e2e_listed_files_stop_with_duplicate")
         return
     if (d[0], d[1]) != (f[0], f[1]):
-        run.report("e2e|dir-vs-files|" + layout_class(files, cfg), case, "tree %s cfg %s: `mypy .` gives %s but listing the files gives %s" % (files, cfg, d[:2], f[:2]))
+        run.report("e2e|dir-vs-files|" + layout_class(files, cfg), case, "tree %s%s cfg %s: `mypy .` gives %s but listing the files gives %s" % (files, dd, cfg, d[:2], f[:2]))
     if "pkg" in res:
         run.label("e2e_pkg_mode_compared")
         k = res["pkg"]
         if (k[0], k[1]) != (d[0], d[1]):
-            run.report("e2e|pkg-vs-dir|" + layout_class(files, cfg), case, "tree %s cfg %s: `mypy -p ...` gives %s but `mypy .` gives %s" % (files, cfg, k[:2], d[:2]))
+            run.report("e2e|pkg-vs-dir|" + layout_class(files, cfg), case, "tree %s%s cfg %s: `mypy -p ...` gives %s but `mypy .` gives %s" % (files, dd, cfg, k[:2], d[:2]))
     if "marker" in res:
         stt, lines, expect, err = res["marker"]
         got = {}
@@ -305,7 +333,7 @@ def replay(run: Run, case: dict, origin: str | None = None) -> bool:
                 run.count()
                 judge_inproc(run, f, ci, st)
     else:
-        judge_e2e(run, eval_e2e((files, case["ci"], 1)))
+        judge_e2e(run, eval_e2e((files, case["ci"], 1, case.get("datadirs") or [])))
     return len(run.violations) == before
 
 
@@ -330,7 +358,7 @@ def run(run: Run) -> None:
     run.rule = (
         "directory trees over %d candidate files (names a/b/__init__, .py/.pyi, depth<=3): ALL trees with <=%d files x %d configs (namespace_packages, explicit_package_bases, mypy_path in {none, root}) in-process "
         "(crawler name -> finder must return the file or its sibling stub, or names collide); larger trees (<=8 files) sampled; a sample run end-to-end: `mypy .` = `mypy files` = `mypy files permuted` (= `mypy -p` on regular-package trees) "
-        "and a checker file importing MARK from every assigned module must reveal that file's marker. Non-trivial: a directory without __init__ above a module, a .py/.pyi pair, or explicit bases." % (len(CANDIDATES), maxn, len(CONFIGS))
+        "and a checker file importing MARK from every assigned module must reveal that file's marker; two thirds of the end-to-end trees also contain directories without any Python source (preferably named like a module file beside them). Non-trivial: a directory without __init__ above a module, a .py/.pyi pair, or explicit bases." % (len(CANDIDATES), maxn, len(CONFIGS))
     )
     run.assumptions = ["working directory is the tree root", "a .py shadowed by a sibling .pyi is not listed individually (the directory crawl skips it; listing both is the duplicate-module case)"]
     trees = []
@@ -363,6 +391,9 @@ def run(run: Run) -> None:
     pool_trees = [t for t in alltrees if len(t) >= 2]
     e2e_cis = [i for i in range(len(CONFIGS)) if i not in NESTED_BASE_CI]
     e2e = [(rnd.choice(pool_trees), rnd.choice(e2e_cis), rnd.randrange(10**6)) for _ in range(ne)]
+    # two thirds of the sampled trees also get directories that hold no Python source (a text file only), preferably
+    # named like a module file beside them: such a directory must neither hide the module from `mypy .` nor rename anything
+    e2e = [(t, ci, ps, data_dirs_for(t, ps)) for t, ci, ps in e2e]
     n = 0
     for res in pmap(eval_e2e, e2e, recycle=60):
         judge_e2e(run, res)
